@@ -44,6 +44,18 @@ CLAIMED = {
          "stateless model checking of the real top-level client over a simulated cluster: bounded fault scripts x cache state x event position x schedules up to a deviation bound; the cluster executor is the server-side observer",
          "Every sequence of <=2 events from a 19-event menu (move, split, merge, eight transient exception classes, server crash / stopped / aborted, connection reset, meta move, meta NSRE, ZooKeeper errors) is applied before or concurrently with 1-2 requests on a warm or cold cache; two regions behind one shared connection; a request held in flight while the fault hits, with the fault position enumerated over the first server-side attempts; application exception and dropped table as fatal outcomes. All schedules with <=1-2 deviations. Oracle: success with the request's own value, executed by a server hosting the owning region at that moment (the executor refuses stale names); fatal errors unchanged and not re-executed; nothing blocked.",
          "Tier L (simulated region clients); cluster model fidelity; deviation bound; scripts of length <=2 (3 sampled in thorough).", "DESIGN.md §4 C04"),
+ "C07": ("model_checking",
+         "stateless model checking of SendBatch on the real client over a simulated cluster: per-call outcome scripts x re-location/cancellation events x positions x schedules",
+         "Batches of 1-3 calls over 1-2 regions on 1-2 servers; for every call every outcome sequence of bounded length over {fatal, retry-later, not-serving, connection-dead} followed by success; events {cancel, table dropped so that re-location fails, meta silent then cancel so that re-location blocks, client closed} fired after the k-th user operation; schedules with <=1-2 deviations. Oracle: res[i] is call i's own payload with nil error iff a server executed it, no result mixes response and error or carries another call's error, none is empty, allOK iff every error is nil.",
+         "Tier L; bounded script length; deviation bound.", "DESIGN.md §4 C07"),
+ "C09": ("model_checking",
+         "stateless model checking of availability channels / establishers / connection cache of the real client over a simulated cluster: concurrent callers x faults x positions x schedules up to 2-3 deviations",
+         "2-3 concurrent callers over 2-3 regions behind one or two connections, nine fault kinds (connection reset, crash with reassignment, NSRE bursts, split, split with daughter still opening, merge, server-stopped, move), either as a cold burst or with a request held in flight and the fault fired after the k-th server-side attempt. Oracle: no panic in any thread (double release = close of nil channel), all requests succeed, and at quiescence no cached region is unavailable and no client thread is still running.",
+         "Tier L; the data-race clause is not decided by this check (a cooperative scheduler's hand-offs hide races from the detector) - see DESIGN.md §6.", "DESIGN.md §4 C09"),
+ "C12": ("model_checking",
+         "stateless model checking of SendBatch with the simulated cluster's executor as observer: invalid batches at every position; attempts, execution counts and per-region order judged at the servers",
+         "Invalid batches (other table / repeated call / non-batchable call / scan at every position, cold and warm cache) must be rejected as a whole with nothing reaching any server; valid batches over the C07 configuration space must never execute a call twice (increments counted in a model table), never re-send after success or a non-retryable error, never address a region that does not own the key, and keep batch order among same-region calls of one multi-request.",
+         "Tier L: order inside a multi-request is the hand-over order to the (simulated) region client; the real multi assembly is checked by C02/C05.", "DESIGN.md §4 C12"),
  "C08": ("model_checking",
          "explicit-state breadth-first search over the real location cache, every transition executed on the implementation and judged against an interval model",
          "All 1683 reachable states of a universe of every interval over 3 boundary points x 2 ids (plus a prefix-named table) with put/del of every region as transitions (87k per configuration), repeated with 0..130 filler regions to move entries across B-tree pages; invariant (no two cached regions of a table intersect) in every state, transition relation (evict-all-older / unchanged) on every edge, dead marks, and a differential rebuild from the canonical state.",
@@ -54,7 +66,7 @@ CLAIMED = {
          "Every ordered pair of ~2.6k (quick) / ~10k (thorough) well-formed region names and every triple of a 160-name subset is compared with the real comparator and with a component-wise (table,start,id) oracle; search keys 'table,key,:' are compared against every name. Exhaustive within the stated alphabet and key length, which is where comparator mistakes live (bytes around ',' and unequal lengths).",
          "Scope bound: start keys <=2/<=3 bytes over {00,'+',',','-','a',ff}; well-formed names only.", "DESIGN.md §4 C16"),
 }
-FIX_COMMITS = ["0da2129", "62252c5", "effb93f", "0cef440", "27c75df", "f573f90", "137cea9", "fa68402", "74e6ab5", "ffdcfd8", "dc24a9a", "6fcb5bf"]
+FIX_COMMITS = ["0da2129", "62252c5", "effb93f", "0cef440", "27c75df", "f573f90", "137cea9", "fa68402", "74e6ab5", "ffdcfd8", "dc24a9a", "6fcb5bf", "0fa34d5"]
 NA_REASONS = {}
 PENDING_REASON = "check under construction in this revision (planned: see DESIGN.md §4); not claimed until its check is committed"
 
